@@ -463,6 +463,7 @@ func tailRule(p *load.Program, f *fsm, s *oblig.Set, next *ssa.Function, fld map
 	tst := tokT.Underlying().(*types.Struct)
 	kindIx := -1
 	valIx := -1
+	_ = valIx
 	for i := 0; i < tst.NumFields(); i++ {
 		if n, ok := tst.Field(i).Type().(*types.Named); ok && n.Obj().Name() == "Kind" {
 			kindIx = i
@@ -484,50 +485,79 @@ func tailRule(p *load.Program, f *fsm, s *oblig.Set, next *ssa.Function, fld map
 		{false, false, "EOL"}, {false, true, "EOF"}, {true, false, "false"}, {true, true, "false"},
 	}
 	for _, c := range cases {
-		o := &absint.Oracle{}
-		in := absint.NewInterp(p.SSA, o)
-		lex := absint.Zero(lexT).(*absint.Struct)
-		lf := append([]absint.Val(nil), lex.F...)
-		lf[fld["eof"]] = absint.MkBool(c.eof)
-		tk := absint.Zero(tokT).(*absint.Struct)
-		tkf := append([]absint.Val(nil), tk.F...)
-		last := f.kinds["Name"]
-		if c.lastEOL {
-			last = f.kinds["EOL"]
-		}
-		tkf[kindIx] = absint.MkIntT(last, tst.Field(kindIx).Type())
-		lf[fld["Token"]] = &absint.Struct{T: tokT, F: tkf}
-		cell := in.NewCell(&absint.Struct{T: lexT, F: lf}, "lexer")
-		in.Hooks.Call = func(in *absint.Interp, fn *ssa.Function, args []absint.Val, site ssa.Instruction) (absint.Val, bool) {
-			if fn.Name() == "finished" && fn.Pkg == sp {
-				return absint.MkBool(true), true
-			}
-			return absint.StdCall(in, fn, args)
-		}
-		res, end := in.Run(next, []absint.Val{&absint.Ptr{Cell: cell}})
 		key := fmt.Sprintf("lexer.(*Lexer).Next / tail eof=%v lastIsEOL=%v", c.eof, c.lastEOL)
-		if end != nil || o.Next() {
-			s.Unk("N4", key, pos, fmt.Sprintf("tail could not be evaluated: %v", end))
-			continue
-		}
-		b, _ := absint.ConstBool(res)
-		got := "false"
-		lx := cell.V.(*absint.Struct)
-		if b {
-			k, _ := absint.ConstInt(lx.F[fld["Token"]].(*absint.Struct).F[kindIx])
-			got = f.kindNm[k]
-			if valIx >= 0 {
-				_ = valIx
+		o := &absint.Oracle{}
+		verdict, npaths := "", 0
+		for n := 0; n < 32 && verdict == ""; n++ {
+			npaths++
+			in := absint.NewInterp(p.SSA, o)
+			lex := absint.Zero(lexT).(*absint.Struct)
+			lf := append([]absint.Val(nil), lex.F...)
+			lf[fld["eof"]] = absint.MkBool(c.eof)
+			// the text and where its last token lies are whatever they are: the
+			// end of the stream depends on the end flag and on the kind of the last
+			// token only (a last EOL closes the last line wherever it stands)
+			text := absint.NewVar("IN", types.Typ[types.String])
+			lf[fld["input"]] = text
+			lf[fld["from"]] = in.LenOf(text)
+			lf[fld["to"]] = in.LenOf(text)
+			tk := absint.Zero(tokT).(*absint.Struct)
+			tkf := append([]absint.Val(nil), tk.F...)
+			for i := 0; i < tst.NumFields(); i++ {
+				if i != kindIx {
+					tkf[i] = absint.NewVar("LAST."+tst.Field(i).Name(), tst.Field(i).Type())
+				}
 			}
-			eofNow, _ := absint.ConstBool(lx.F[fld["eof"]])
-			if got == "EOF" && !eofNow {
-				got = "EOF without setting the eof flag"
+			last := f.kinds["Name"]
+			if c.lastEOL {
+				last = f.kinds["EOL"]
+			}
+			tkf[kindIx] = absint.MkIntT(last, tst.Field(kindIx).Type())
+			lf[fld["Token"]] = &absint.Struct{T: tokT, F: tkf}
+			cell := in.NewCell(&absint.Struct{T: lexT, F: lf}, "lexer")
+			in.Hooks.Call = func(in *absint.Interp, fn *ssa.Function, args []absint.Val, site ssa.Instruction) (absint.Val, bool) {
+				if fn.Name() == "finished" && fn.Pkg == sp {
+					return absint.MkBool(true), true
+				}
+				return absint.StdCall(in, fn, args)
+			}
+			res, end := in.Run(next, []absint.Val{&absint.Ptr{Cell: cell}})
+			if end != nil {
+				s.Unk("N4", key, pos, fmt.Sprintf("tail could not be evaluated: %v", end))
+				verdict = "unk"
+				break
+			}
+			b, isB := absint.ConstBool(res)
+			got := "false"
+			lx := cell.V.(*absint.Struct)
+			if !isB {
+				got = "an undetermined answer " + absint.Key(res)
+			} else if b {
+				got = "a token of undetermined kind"
+				if ts, ok := lx.F[fld["Token"]].(*absint.Struct); ok {
+					if k, ok := absint.ConstInt(ts.F[kindIx]); ok {
+						got = f.kindNm[k]
+					}
+				}
+				eofNow, _ := absint.ConstBool(lx.F[fld["eof"]])
+				if got == "EOF" && !eofNow {
+					got = "EOF without setting the eof flag"
+				}
+			}
+			if got != c.want {
+				why := ""
+				if len(in.CondLog) > 0 {
+					why = " when " + strings.Join(in.CondLog, "; ")
+				}
+				s.Bad("N4", key, pos, fmt.Sprintf("at end of input the lexer yields %s%s, expected %s (EOL unless the last token is EOL, then EOF exactly once, then nothing: whatever the text and wherever its last token stands)", got, why, c.want))
+				verdict = "bad"
+			}
+			if !o.Next() {
+				break
 			}
 		}
-		if got == c.want {
-			s.OK("N4", key, pos, "tail yields "+got)
-		} else {
-			s.Bad("N4", key, pos, fmt.Sprintf("at end of input the lexer yields %s, expected %s (EOL unless the last token is EOL, then EOF exactly once, then nothing)", got, c.want))
+		if verdict == "" {
+			s.OK("N4", key, pos, fmt.Sprintf("tail yields %s on %d path(s)", c.want, npaths))
 		}
 	}
 }
